@@ -15,7 +15,7 @@ from typing import List, Optional, Set, Tuple
 from jinja2 import nodes as J
 
 from ..front_py import AnalysisError, FuncInfo, walk_local, norm, dotted
-from ..dataflow import Defs
+from ..dataflow import Defs, stores_in
 from ..front_jinja import JinjaBinding, JTemplate
 from ..types_lite import members
 
@@ -60,6 +60,38 @@ def order_of(eng, f: FuncInfo, it: ast.AST, defs: Defs, depth: int = 0) -> Tuple
         if step is not None:
             return "other:sliced with a step", it.value
     return "declared", it
+
+
+def helper_order(eng, f: FuncInfo, it: ast.AST):
+    """`for x in helper(struct)`: the helper is a repository function whose returned value is built from
+    `<param>.fields` -> (order, helper qual); order in {'sorted','declared','unknown: ...'}; None if the
+    call is not such a helper."""
+    if not isinstance(it, ast.Call):
+        return None
+    cs = eng.cg.site_of.get(id(it))
+    if not cs or len(cs.callees) != 1 or cs.how == "by-name":
+        return None
+    g = eng.prog.functions.get(cs.callees[0])
+    if g is None or g.cls is not None and g.name == "__init__":
+        return None
+    rets = [n.value for n in walk_local(g.node) if isinstance(n, ast.Return) and n.value is not None]
+    if not rets:
+        return None
+    if not any(isinstance(x, ast.Attribute) and x.attr == "fields" for r in rets for x in ast.walk(r)) and \
+       not any(isinstance(x, ast.Attribute) and x.attr == "fields" for x in ast.walk(g.node)):
+        return None
+    gt = eng.T.fn(g)
+    gdefs = Defs(g.node)
+    orders = set()
+    for r in rets:
+        o, base = order_of(eng, g, r, gdefs)
+        if is_field_list(gt.of(base)) or (isinstance(base, ast.Attribute) and base.attr == "fields"):
+            orders.add(o if o in ("sorted", "declared") else "unknown: " + o)
+        else:
+            orders.add("unknown: returns %s" % norm(r, 50))
+    if len(orders) == 1:
+        return orders.pop(), g.qual
+    return "unknown: returns differ", g.qual
 
 
 def key_is_field_id(key: ast.AST) -> bool:
@@ -110,6 +142,7 @@ def run(eng, rep) -> None:
         "be sorted by field_id (sorted(key=lambda f: f.field_id) / attrgetter / | sort(attribute='field_id'))."
     )
     rep.rule("R15.1", "every wire-order-relevant iteration over a struct's fields is in ascending field_id")
+    rep.rule("R15.3", "the order of a struct's fields is computed from that struct on every use (no module-level cache keyed by name)")
     rep.rule("R15.2", "the run-time C++ codec iterates the reflected field vector front to back, unsorted (order = Struct.reflection's)")
     rep.assume("dict-insertion order, list order and sorted() stability as specified by Python; jinja2's sort filter sorts ascending by the named attribute")
     S = sinks(eng)
@@ -125,6 +158,7 @@ def run(eng, rep) -> None:
     refl_reach = cg.reachable(["fcp.specs.v2.FcpV2.reflection"]) if "fcp.specs.v2.FcpV2.reflection" in prog.functions else {}
 
     n_rel = 0
+    seen_cache = set()
     inventory = []
     for f in prog.functions.values():
         ft = T.fn(f)
@@ -145,6 +179,28 @@ def run(eng, rep) -> None:
                     defs = Defs(f.node)
                 order, base = order_of(eng, f, it, defs)
                 bt = ft.of(base)
+                hv = helper_order(eng, f, it) if not is_field_list(bt) and not is_field_list(ft.of(it)) else None
+                if hv is not None:
+                    horder, hq = hv
+                    g = prog.functions[hq]
+                    for k_, tgt, st in stores_in(g.node):
+                        root = tgt
+                        while isinstance(root, (ast.Attribute, ast.Subscript)):
+                            root = root.value
+                        if isinstance(root, ast.Name) and root.id in g.module.assigns and root.id not in g.local_names() and (hq, norm(st, 70)) not in seen_cache:
+                            seen_cache.add((hq, norm(st, 70)))
+                            rep.violation("R15.3", g.file, g.qual, norm(st, 70), "the field order is kept in module-level object '%s' between calls: a struct of the same name (another schema, or the same schema with its declarations permuted) is serialised in the order remembered from the earlier one" % root.id)
+                    relevant = any(isinstance(c, ast.Call) and cg.site_of.get(id(c)) and set(cg.site_of[id(c)].callees) & can_reach for b in body for c in ast.walk(b))
+                    if relevant:
+                        n_rel += 1
+                        site = "%s %s" % (kind, norm(it, 80))
+                        if horder == "sorted":
+                            rep.ok("R15.1", f.file, f.qual, site, "ascending field_id (ordered by helper %s)" % hq)
+                        elif horder == "declared":
+                            rep.violation("R15.1", f.file, f.qual, site, "fields are serialised in declaration order, not ascending field_id (helper %s returns them unsorted)" % hq)
+                        else:
+                            rep.undecided("R15.1", f.file, f.qual, site, "iteration order is produced by helper %s in a form not decided (%s)" % (hq, horder))
+                    continue
                 if not is_field_list(bt):
                     # sorted(...) result assigned to a local first
                     if not (isinstance(base, ast.Name) and is_field_list(ft.of(it))):
